@@ -342,3 +342,45 @@ extern "C" void h_step() {
     VWITNESS("step-end");
     if (g_depth == DEPTH) { VWITNESS("step-at-max-depth"); }
 }
+
+// (3) the assumption vector built by the real MainSolver::solve_: one literal per frame id ever created except the base,
+// negated (= frame enabled) exactly for the enabled ids, positive (= frame's clauses switched off) for all others.
+static int g_cap_n; static Lit g_cap[8]; static bool g_cap_simp, g_cap_off; static int g_inc; static int g_map_calls;
+extern "C" lbool stub_simpSolve(SimpSMTSolver *, vec<Lit> const * a, bool do_simp, bool turn_off) {
+    g_cap_n = a->size(); for (int i = 0; i < 8; i++) if (i < a->size()) g_cap[i] = (*a)[i];
+    g_cap_simp = do_simp; g_cap_off = turn_off;
+    uint8_t r = nondet_u8(); VASSUME(r <= 2); return lbool(r);
+}
+extern "C" void stub_vecLitPush(vec<Lit> * v, Lit const * e) {
+    if (v->data == nullptr) { v->data = (Lit *)malloc(8 * sizeof(Lit)); v->cap = 8; v->sz = 0; }
+    if (v->sz >= 8) { g_bad = 1; return; }
+    v->data[v->sz++] = *e;
+}
+extern "C" int stub_isIncremental(SMTConfig const *) { return g_inc; }
+extern "C" void stub_mapEnabled(SimpSMTSolver *, Var, uint32_t, uint32_t *) { g_map_calls++; }
+static void * ss_vt[80];
+extern "C" void h_assumptions() {
+    build();
+    MainSolver * m = M;
+    ss_vt[vslot(&SimpSMTSolver::mapEnabledFrameIdToVar)] = (void *)&stub_mapEnabled;
+    *reinterpret_cast<void ***>(SS) = ss_vt;
+    { PTRef * ft = m->frameTerms.data; ft[1] = PTRef{1001u}; ft[2] = PTRef{1002u}; ft[3] = PTRef{1003u}; ft[4] = PTRef{1004u}; ft[5] = PTRef{1005u}; }
+    int nids = 1 + (nondet_u8() & 7); VASSUME(nids <= 6);      // frame ids 0..nids-1 have been created (some popped since)
+    m->frameTerms.sz = nids;
+    bool en[6]; vec<uint32_t> enabled;
+    enabled.data = (uint32_t *)malloc(6 * sizeof(uint32_t)); enabled.cap = 6; enabled.sz = 0;
+    for (int id = 0; id < 6; id++) { en[id] = id < nids && (id == 0 || nondet_bool()); if (en[id]) enabled.data[enabled.sz++] = (uint32_t)id; }   // live frames: base + any subset, increasing
+    g_inc = nondet_bool(); g_map_calls = 0; g_cap_n = -1;
+    sstat r = m->MainSolver::solve_(enabled);
+    VASSERT(!g_bad, "harness: capacities");
+    VASSERT(g_cap_n == nids - 1, "one assumption per frame id ever created, the base frame dropped");
+    for (int id = 1; id < 6; id++) if (id < nids) {
+        Lit pos; pos.x = (int)((1000u + (uint32_t)id) * 2);
+        VASSERT(g_cap[id - 1] == (en[id] ? ~pos : pos), "assumption for id: negated activation literal iff the frame is live, positive (clauses switched off) otherwise");
+    }
+    VASSERT(g_map_calls == enabled.size(), "every enabled frame is reported to the engine once");
+    VASSERT(g_cap_simp == !g_inc && g_cap_off == (bool)g_inc, "elimination is requested iff the solver is not incremental");
+    VASSERT(r == s_True || r == s_False || r == s_Undef, "status is the engine's lbool");
+    if (nids >= 3 && !en[1] && en[2]) { VWITNESS("popped-frame-disabled"); }
+    VWITNESS("assumptions-end");
+}
